@@ -246,7 +246,9 @@ CLAIMED = {
                 'agreement - serialize and deSerialize pass the same field list in the same order with the full buffer size, and the file '
                 'readers/writers transfer exactly one record per node through them; (3) change detection - every old-value snapshot in '
                 'computeNegaMax / computePathError is compared with the field it was taken from, every recomputed field is snapshotted, and '
-                'updateScores tests every "changed" result. Right level: these are the structural necessary conditions of "links mutually '
+                'updateScores tests every "changed" result; (4) the ordering of the parent-link set compares every identifying field; (5) dependency '
+                'completeness of the path-error recompute set - the fields computePathError reads of the node itself / of its parents decide '
+                'which nodes updateScores must schedule when a recompute call reports a change (found and fixed defect D9). Right level: these are the structural necessary conditions of "links mutually '
                 'consistent", "save/reload reproduces the book" and "changes propagate"; the fixed-point equations themselves are '
                 'value-level over a DAG and are not claimed.',
         'design_ref': 'DESIGN.md section 2, C19',
